@@ -241,7 +241,7 @@ theorem random_split_eq (isField : Bool) (s : List Int) (t m : Int) (stream : Li
     simp
   rw [e0] at key
   simp -iota only [] at key
-  rw [key]
+  erw [key]
   simp only []
   rw [randomSplit_eq_mat]
   congr 1
